@@ -237,8 +237,12 @@ def run(case, res):
 
 def _copy_fp(fp):
     # legal_ops (index 5) is a property of the Block object, not of the netlist; a copy of a
-    # PostSynthBlock has the default set. Everything else must be identical.
-    return fp[:5] + fp[6:]
+    # PostSynthBlock has the default set. The list of registered memory names (index 4) may
+    # contain memories that have no port left (e.g. after dead-logic removal): copy_block
+    # only copies memories some net refers to, and a port-less memory has no behaviour. The
+    # memories in use are compared through index 2, and the name index of the result is
+    # checked against them separately. Everything else must be identical.
+    return fp[:4] + fp[6:]
 
 
 def _fp_diff(a, b):
